@@ -73,6 +73,7 @@ class C02(StreamProp):
 
 class C05(StreamProp):
     id = 'C05'
+    props_files = ['C05', 'C05b']
     seg_all = True
     n_quick = 400
     n_thorough = 15000
@@ -579,6 +580,15 @@ class C14(E2Prop):
                 out.append(gen_e2.history('f%d' % k, role, ops, ['PI', 'PI2', 'PI', 'PI0', 'PI', 'T'], 'wb8', 'ok', wbs, max(mx, gen_e2.frame_size(role, 4)))); k += 1
         for i in range(500 if tier == 'quick' else 6000):
             out.append(gen_e2.random_history(rng, 'h%d' % i, tight_prob=0.8))
+        # the fullness test at the length-encoding boundaries: Frame::len must count exactly what gets buffered
+        for role in 'sc':
+            for n in (124, 125, 126, 127, 65535, 65536):
+                true_size = gen_e2.frame_size(role, n)
+                first = gen_e2.frame_size(role, 3)
+                for d in (-2, -1, 0, 1, 2, 3):
+                    mx = first + true_size - d
+                    ops = ['wb:000102', 'wb:' + ws.hx(bytes((i * 7) & 255 for i in range(n))), 'f', 'f', 'f']
+                    out.append(gen_e2.history('e%d' % k, role, ops, [], 'wb2', 'ok', 0, max(mx, true_size))); k += 1
         # set_config changes both sizes at run time: the new bound must be the one enforced
         for role in 'sc':
             fs = gen_e2.frame_size(role, 4)
